@@ -866,13 +866,14 @@ func (idx *Index) Get(key []byte) (types.Block, bool, error) {
 	}
 
 	// Here we just need an RLock since there will not be changes over buckets.
-	// So, do not use getRecordsFromBucket and instead only wrap this line of
-	// code in the RLock.
+	// The lock is held until the record list has been read from disk. While it
+	// is held, a flush cannot re-point the bucket, so the record the bucket
+	// names stays in use and GC cannot mark, truncate or remove it while it
+	// is being read.
 	idx.bucketLk.RLock()
 	cached, indexOffset, fileNum, err := idx.readBucketInfo(bucket)
-	idx.bucketLk.RUnlock()
-	vhook.Point("index.get.unlocked")
 	if err != nil {
+		idx.bucketLk.RUnlock()
 		return types.Block{}, false, fmt.Errorf("error reading bucket: %w", err)
 	}
 	var records RecordList
@@ -880,9 +881,11 @@ func (idx *Index) Get(key []byte) (types.Block, bool, error) {
 		records = NewRecordListRaw(cached)
 	} else {
 		records, err = idx.readDiskBucket(indexOffset, fileNum)
-		if err != nil {
-			return types.Block{}, false, fmt.Errorf("error reading index records from disk: %w", err)
-		}
+	}
+	idx.bucketLk.RUnlock()
+	vhook.Point("index.get.unlocked")
+	if err != nil {
+		return types.Block{}, false, fmt.Errorf("error reading index records from disk: %w", err)
 	}
 	if records == nil {
 		return types.Block{}, false, nil
